@@ -1,6 +1,7 @@
 package main
 
 import (
+	"math/big"
 	"bytes"
 	"crypto/x509"
 	"fmt"
@@ -21,6 +22,11 @@ func init() {
 		var blobs []string
 		for _, st := range strings.Split(a[1], ",") {
 			reparse := strings.HasSuffix(st, "r")
+			if strings.HasSuffix(st, "b") {
+				// the caller looks at the file so far, then goes on signing the same object
+				p.Bytes()
+				st = strings.TrimSuffix(st, "b")
+			}
 			var ki int
 			fmt.Sscan(strings.TrimSuffix(st, "r"), &ki)
 			if reparse {
@@ -76,9 +82,14 @@ func init() {
 	}
 }
 
-// c03SignerCert: signer 0 is self-signed, signer 1 is issued by a CA (issuer differs from subject).
+// c03SignerCert: signer 0 is self-signed, signer 1 is issued by a CA (issuer differs from subject);
+// with a pad starting with "L" both are issued by the same CA (same issuer, different serials).
 func c03SignerCert(ki int, pad string) *x509.Certificate {
-	if ki == 1 {
+	if strings.HasPrefix(pad, "U") {
+		// names as OpenSSL encodes them (UTF8String)
+		return mintCertRawName(rsaKey(2048, ki), utf8Name(fmt.Sprintf("image signer %d", ki)+pad, "Verif Org"), big.NewInt(int64(300+ki)))
+	}
+	if ki == 1 || strings.HasPrefix(pad, "L") {
 		return leafCert(rsaKey(2048, ki), fmt.Sprintf("image signer %d", ki)+pad, int64(300+ki))
 	}
 	return simpleCert(rsaKey(2048, ki), fmt.Sprintf("image signer %d", ki)+pad, int64(300+ki))
@@ -105,6 +116,11 @@ func runC03(c *Ctx) {
 	signerCert := func(ki int) *x509.Certificate { return c03SignerCert(ki, cnPad) }
 	for i := 0; i < n; i++ {
 		cnPad = strings.Repeat("x", i%8)
+		if i%3 == 2 {
+			cnPad = "L" + cnPad
+		} else if i%5 == 4 {
+			cnPad = "U" + cnPad
+		}
 		spec := smallPESpec(rng)
 		im := spec.build(rng)
 		steps := []string{}
@@ -118,6 +134,8 @@ func runC03(c *Ctx) {
 			if k > 0 && rng.Intn(2) == 0 {
 				st += "r"
 				anyReparse = true
+			} else if k > 0 && rng.Intn(2) == 0 {
+				st += "b"
 			}
 			steps = append(steps, st)
 		}
